@@ -1,23 +1,25 @@
-import PoryProofs.ProgramParsePS
-import PoryProofs.ProgramInsertMS
+import PoryProofs.ProgramSelectPS
+import PoryProofs.Properties.C12b
 /-
 P2d — the whole-file grammar theorem ("parse ∘ print = elaborate" for whole files, P2 / P2b) COMPLETED by the three
 forms P2 and P2b list as NOT COVERED: poryswitch inside movement lists, inside mart lists and inside text
-statements, and `format( … )` text values.
+statements, and `format( … )` text values; and the independence clause of C17 lifted to the completed grammar.
 
 Helper modules (all new; nothing existing was edited):
-  PoryProofs/ListSwitchErr.lean   lists with nested poryswitch for BOTH list kinds, all outcomes (`parse_list_ps`);
-  PoryProofs/TextSwitchErr.lean   text bodies (value / poryswitch over values, `format()` included), all outcomes;
+  PoryProofs/ListSwitchErr.lean     lists with nested poryswitch for BOTH list kinds, all outcomes (`parse_list_ps`);
+  PoryProofs/TextSwitchErr.lean     text bodies (value / poryswitch over values, `format()` included), all outcomes;
   PoryProofs/ProgramGrammarPS.lean  grammar `STopP`, printer, `TWFP`, reference elaboration;
-  PoryProofs/ProgramParsePS.lean    the parser on printed files.
-Reused: P2b (`STopM`, every old statement kind through the embedding), C14b's syntax `ItemP / Cases / Items` and the
-one-step lemmas `plvA_*`, C12b / TopParse (`header_run`, `header_no_switches`, `header_undefined_switch`,
-`tcases_close`), C09c / TextValueParse (`TVal`, `tval_run`, `text_statement_err`), C07b (`Params`, through `TVal`),
-C15b (`parse_movement_statement_gen`, `parse_mart_statement_gen`, `parse_text_statement_gen`).
+  PoryProofs/ProgramParsePS.lean    the parser on printed files;
+  PoryProofs/ProgramSelectPS.lean   the hand-selected plain file `selTops`, `compileFileP`, independence.
+Reused: P2b (`STopM`, every old statement kind through the embedding; `indep_mainM`, `remove_statementM`), C14b's
+syntax `ItemP / Cases / Items` and one-step lemmas `plvA_*`, C12b / TopParse (`header_run`, `header_no_switches`,
+`header_undefined_switch`, `tcases_close`, `selectText`), C09c / TextValueParse (`TVal`, `tval_run`,
+`text_statement_err`), C07b (`Params`, through `TVal`), C09 (`terminator_idempotent`), C15b
+(`parse_movement_statement_gen`, `parse_mart_statement_gen`, `parse_text_statement_gen`).
 
 COVERED GRAMMAR  `STopP` = `base t` (`t : P2b.STopM`: script / raw / const / movement / mart / text with plain lists
 and values / mapscripts; `STopP.base` IS the embedding, `embedM = List.map STopP.base`, `printTopsP_embed`,
-`TWFP_embed`, `elabTopsP_embed`) plus
+`TWFP_embed`, `elabTopsP_embed`, `compileFileP_embed`) plus
     movementP  `movement [(global|local)] Name { element* }`
                  element ::= `step` | `step * N` | `,` | `poryswitch ( X ) { case* }`
                  case    ::= `key : element` | `key { element* }`          key an IDENT or INT token
@@ -32,13 +34,16 @@ and values / mapscripts; `STopP.base` IS the embedding, `embedM = List.map STopP
   Every constructor carries the tokens it is printed with (arbitrary records, any positions / literals); `TopWFP`
   / `TWFP` (decidable) fix token types only (+ the repetition rule of `format()` parameters, `Params.NoRep`).
 NOT COVERED: what P2 / P2b / P1 list as not covered and is not mentioned above (a `const` as last statement, token
-  sequences outside the grammar — a `,` in a mart list, a missing `}` of a case …, the lexer); `format()` with
-  parameter lists outside `C07b.Params`.
+  sequences outside the grammar — a `,` in a mart list, a missing `}` of a case …, the lexer: `#guard` checks the
+  example tokens against the model lexer); `format()` with parameter lists outside `C07b.Params`; poryswitch inside
+  `moves( … )` arguments of commands in script bodies (the window lemma `parse_list_elab_ps` covers the `)`-closed
+  list, P1's statement grammar does not use it).
 
 REFERENCE ELABORATION (`stepTopP`, `elItems`, `elBody`): a poryswitch contributes EXACTLY the selected case — the
-NEWEST entry for the `-s` value of the switch, else the newest `_` entry (`pick`) —, spliced in place, in source
-order; ALL cases are elaborated first (an error inside an unselected case is an error of the statement, as in the
-model = Go: F18). Located errors, all part of the reference (`headerErr`, `pick`, `plainEl`, `TVal.raw`):
+NEWEST entry for the `-s` value of the switch, else the newest `_` entry (`pick`; `pick_last`: = the LAST such case
+in source order) —, spliced in place, in source order; ALL cases are elaborated first (an error inside an
+unselected case is an error of the statement, as in the model = Go: F18). Located errors, all part of the
+reference (`headerErr`, `pick`, `plainEl`, `TVal.raw`):
   no `-s` option at all          on the `poryswitch` token   (environment errors on)
   switch not defined             on the switch name          (environment errors on)
   no case for the value, no `_`  on the `poryswitch` token   (environment errors on; the lint parser yields no
@@ -48,8 +53,9 @@ model = Go: F18). Located errors, all part of the reference (`headerErr`, `pick`
 The first error in source order wins. The new statements change the parser state exactly like their plain
 counterparts (a text statement is appended to `textStatements`; nothing is hoisted, no id is consumed).
 
-PROVED (nothing partial for the covered grammar)
-* `parse_list_ps`       : `parseListValue` (movement lists closed by `}` or `)`, mart lists) on a printed list with
+PROVED
+1. parse ∘ print = elaborate (nothing partial for the covered grammar)
+* `parse_list_elab_ps`  : `parseListValue` (movement lists closed by `}` or `)`, mart lists) on a printed list with
                           nested poryswitch elements = `elItems` (window lemma, all outcomes);
 * `parse_text_body_ps`  : the body parser of a text statement on a printed body = `elBody`;
 * `parse_top_elab_ps`   : `parseTopLevelStatement` on one printed statement of `STopP` = `stepTopP`
@@ -58,15 +64,52 @@ PROVED (nothing partial for the covered grammar)
 * `parse_file_elab_ps`  : `parseTokens env (printTopsP ts ++ [eofT]) = elabFileP env ts (initState eofT)` for every
                           `TWFP` file, with the model's own fuel `4 * tokens + 50` (shown sufficient);
                           `parse_file_embed_ps`: on embedded files this is P2b's elaboration.
-* selection facts        : `pick_newest`, `pick_fallback`, `pick_none` (what `pick` selects),
-                          `movement_plain_is_old`, `mart_plain_is_old` (a poryswitch-free `movementP` / `martP`
-                          statement elaborates like the old `movement` / `mart` statement).
-Examples (section Example): the required file — a movement with a NESTED poryswitch, a mart with one, a text with
-one (a `format()` in its `_` case) and a `format()` text — parsed by `decide` on the parser model and by the
-theorem, under two different `-s` settings; the five located errors through `parseTokens`.
+2. what is selected: `pick_newest`, `pick_fallback`, `pick_none`, `elCases_src` + `pick_last` + `elItem_sw` (the
+   case table is the source-order list reversed; the LAST matching case wins), `elBody_literal` (on string-literal
+   cases the reference IS C12b's `selectText` / `textResult`), `movement_plain_is_old`, `mart_plain_is_old`.
+3. the hand-selected plain file (C12 for lists and texts, whole files): `selTops env ts : Option (List STopM)` —
+   every poryswitch replaced by its selected case, `step * N` written out, `format()` values formatted;
+* `elab_selected`        : `selTops env ts = some ms → elabTopsP env ts s = elabTopsM env ms s` in EVERY state;
+* `file_selected`        : `compileFileP env o eofT ts = compileFileM env o eofT ms` (same sections or same error);
+* `file_selected_tokens` : `ms` is a well-formed file of P2b's grammar and the model's pipeline gives the same result
+                           on the printed tokens of both files;
+* `selected_defined`     : with environment errors on, every file that elaborates has a hand-selected file.
+4. independence (C17) for the completed grammar, environment errors on
+* `compile_print_ps`     : `parseTokens` + `emitProgram` on the printed tokens IS `compileFileP`;
+* `tops_independent_ps`  : for `IndepP env eofT ts1 ts2` (decidable) = `P2b.IndepM` of the hand-selected files —
+      `compileFileP (ts1 ++ ts2) = .ok S ↔ ∃ S1 S2, compileFileP ts1 = .ok S1 ∧ compileFileP ts2 = .ok S2 ∧ S = S1.append S2`;
+  the new forms hoist nothing and consume no ids, so the side condition is the one of P2b, read on the SELECTED
+  cases only (a constant of `ts1` spelled like an item of an unselected mart case of `ts2` is harmless, one spelled
+  like the selected item is not: example below); `tops_independent_ps_tokens`, `parse_error_left_ps`,
+  `parse_error_right_ps`;
+* `statement_independent_ps` : `P2b.statement_independent_ms` lifted (`UnrelatedP`, decidable).
+5. examples (section Example): the required file — a movement with a NESTED poryswitch, a mart with one, a text
+   with one (a `format()` in its `_` case) and a `format()` text — parsed by the theorem (reference elaboration
+   evaluated) under two different `-s` settings, and by `decide` on the parser model: the first four statements
+   under both settings + the `format()` statement (`decide` on all five at once exceeds the heartbeat limit, see
+   `exTextFmt_parsed_decide`); compiled sections; the hand-selected file as source text; instances of the
+   independence theorems; the five located errors through `parseTokens`; `lint_hole`.
+
+PARTIAL / OPEN (honest list)
+* The independence theorems (4.) and `selected_defined` assume `env.envErrors = true` (the compiler; `false` is the
+  lint parser, which never emits): in the lint parser a text poryswitch WITHOUT selected case yields the text
+  `("", "")` — no terminator —, which no plain text statement denotes (`lint_hole`), so such a statement has no
+  hand-selected form and the route through P2b does not apply to it. `elab_selected` / `file_selected` hold for
+  every environment whenever `selTops` is defined.
+* As in P2 / P2b: `statement_independent_ps` in the "remove" direction; errors of failing combined files are
+  compared only for parse errors.
+
+NOTICED IN THE MODEL (= parser.go)
+* lint parser: `text T { poryswitch(X) { A: "a" } }` with no matching case gives a text with value `""` and NO
+  terminator (every other text value ends with its terminator) — `parsePoryswitchTextStatement` returns `("", "")`
+  without going through `formatTextTerminator`;
+* a bad multiplier / an undefined nested switch inside an UNSELECTED case is an error (all cases are parsed), in
+  lists as in texts (F18 for lists);
+* evaluating `format()` through the parser model by `decide` is very slow for words of two or more letters
+  (examples use one-letter words); no semantic issue.
 -/
 namespace Pory.P2d
-open Pory Pory.Parser Pory.C02P Pory.StmtG Pory.TopParse Pory.P2 Pory.P2b
+open Pory Pory.Parser Pory.C02P Pory.StmtG Pory.TopParse Pory.P2 Pory.P2b Pory.Emit
 open Pory.C14b (Item ItemP Cases Items swVal)
 open Pory.TextValueParse (TVal)
 
@@ -225,6 +268,123 @@ theorem pick_none {α : Type} (env : Env) (psw x : Tok) (cs : List (String × α
     pick env psw x cs d = if env.envErrors then .error (noCaseErr env psw x) else .ok d := by
   simp [pick, h1, h2]
 
+/-- The elaborated cases of a list poryswitch in SOURCE order (key, elements). -/
+def srcCases (env : Env) : Cases → Except PFail (List (String × List Tok))
+  | .nil => .ok []
+  | .colon v _ e rest =>
+    match elItem env e with
+    | .error e => .error e
+    | .ok l =>
+      match srcCases env rest with
+      | .error e => .error e
+      | .ok r => .ok ((v.lit, l) :: r)
+  | .brace v _ items _ rest =>
+    match elItems env items with
+    | .error e => .error e
+    | .ok l =>
+      match srcCases env rest with
+      | .error e => .error e
+      | .ok r => .ok ((v.lit, l) :: r)
+
+/-- The case table of the reference elaboration is the source-order list REVERSED (newest first) … -/
+theorem elCases_src (env : Env) : ∀ (cs : Cases) (acc : List (String × List Tok)),
+    elCases env cs acc =
+      match srcCases env cs with
+      | .error e => .error e
+      | .ok l => .ok (l.reverse ++ acc)
+  | .nil, acc => rfl
+  | .colon v c e rest, acc => by
+    simp only [elCases, srcCases]
+    cases elItem env e with
+    | error e => rfl
+    | ok l =>
+      simp only [elCases_src env rest]
+      cases srcCases env rest with
+      | error e => rfl
+      | ok r => simp
+  | .brace v lb items rb rest, acc => by
+    simp only [elCases, srcCases]
+    cases elItems env items with
+    | error e => rfl
+    | ok l =>
+      simp only [elCases_src env rest]
+      cases srcCases env rest with
+      | error e => rfl
+      | ok r => simp
+
+/-- The LAST entry with key `k` of a source-order list. -/
+def lastCase {α : Type} (k : String) (l : List (String × α)) : Option α :=
+  (l.reverse.find? (fun c => c.1 == k)).map (·.2)
+
+theorem lookup_reverse {α : Type} (l : List (String × α)) (k : String) : l.reverse.lookup k = lastCase k l := by
+  have := C12b.lookup_map_find (fun c : String × α => c.1) (fun c => c.2) l.reverse k
+  simpa [lastCase] using this
+
+/-- … so `pick` selects the LAST case (in source order) whose key is the `-s` value, else the LAST `_` case. -/
+theorem pick_last {α : Type} (env : Env) (psw x : Tok) (l : List (String × α)) (d : α) :
+    pick env psw x l.reverse d =
+      match lastCase (swVal env x.lit) l with
+      | some v => .ok v
+      | none =>
+        match lastCase "_" l with
+        | some v => .ok v
+        | none => if env.envErrors then .error (noCaseErr env psw x) else .ok d := by
+  simp only [pick, lookup_reverse]
+  cases lastCase (swVal env x.lit) l <;> cases lastCase "_" l <;> rfl
+
+/-- A list poryswitch, spelled out: header errors, the cases in source order (first error wins), the last
+matching case. -/
+theorem elItem_sw (env : Env) (psw lp x rp lb rb : Tok) (cases : Cases) :
+    elItem env (.sw psw lp x rp lb cases rb) =
+      match headerErr env psw x with
+      | some e => .error e
+      | none =>
+        match srcCases env cases with
+        | .error e => .error e
+        | .ok l => pick env psw x l.reverse [] := by
+  simp only [elItem, elCases_src]
+  cases headerErr env psw x with
+  | some e => rfl
+  | none =>
+    cases srcCases env cases with
+    | error e => rfl
+    | ok l => simp
+
+/-- A text poryswitch over STRING-LITERAL cases whose header passes is `C12b.textResult`: the reference
+elaboration agrees with the specification `C12b.selectText` (last case with the `-s` value, else last `_`). -/
+def litCase : TCase → TCaseV
+  | .colon key c v => .colon key c (match v with | .plain s => .plain s | .typed t s => .typed t s)
+  | .brace key lb v rb => .brace key lb (match v with | .plain s => .plain s | .typed t s => .typed t s) rb
+
+theorem elVal_lit (env : Env) (v : TextVal) :
+    elVal env (match v with | .plain s => .plain s | .typed t s => .typed t s) = .ok v.value := by
+  cases v <;> rfl
+
+theorem elTCases_lit (env : Env) : ∀ (cs : List TCase) (acc : List (String × String × String)),
+    elTCases env (cs.map litCase) acc = .ok (caseTable cs acc)
+  | [], acc => rfl
+  | c :: r, acc => by
+    cases c with
+    | colon key cl v =>
+      simp only [List.map_cons, elTCases, litCase, TCaseV.val, TCaseV.key, elVal_lit, caseTable, TCase.key, TCase.val]
+      exact elTCases_lit env r _
+    | brace key lb v rb =>
+      simp only [List.map_cons, elTCases, litCase, TCaseV.val, TCaseV.key, elVal_lit, caseTable, TCase.key, TCase.val]
+      exact elTCases_lit env r _
+
+theorem elBody_literal (env : Env) (psw lp x rp lb rb : Tok) (cs : List TCase) (h : headerErr env psw x = none) :
+    elBody env (.sw psw lp x rp lb (cs.map litCase) rb) =
+      match C12b.selectText env x.lit cs with
+      | some c => .ok c.val.value
+      | none => if env.envErrors then .error (noCaseErr env psw x) else .ok ("", "") := by
+  simp only [elBody, h, elTCases_lit, pick, C12b.caseTable_lookup, C12b.selectText]
+  cases h1 : C12b.lastWithKey (swVal env x.lit) cs with
+  | some c => rfl
+  | none =>
+    cases h2 : C12b.lastWithKey "_" cs with
+    | some c => rfl
+    | none => rfl
+
 /-- A poryswitch-free `movementP` statement elaborates like the old `movement` statement of P2 (when the
 multipliers are valid, which P2 requires). -/
 theorem movement_plain_is_old (env : Env) (kw : Tok) (md : Mod) (name lb : Tok) (items : List Item) (rb : Tok)
@@ -240,7 +400,102 @@ theorem mart_plain_is_old (env : Env) (kw : Tok) (md : Mod) (name lb : Tok) (ite
       stepTopP env (.base (.base (.mart kw md name lb items rb))) s := by
   simp [stepTopP, stepTopM, stepTop, martItems_el]
 
-/-! ## 4. examples, non-vacuity -/
+/-! ## 4. the pipeline, the hand-selected file, independence -/
+
+/-- The model's pipeline (`parseTokens`, then `emitProgram`) on the printed tokens of a file is `compileFileP`. -/
+theorem compile_print_ps (env : Env) (o : Opts) (eofT : Tok) (heof : eofT.type = .EOF) (ts : List STopP)
+    (hwf : TWFP ts) :
+    compileToks env o (printTopsP ts ++ [eofT]) =
+      match compileFileP env o eofT ts with
+      | .error e => .error e
+      | .ok S => .ok S.lines :=
+  compileToks_printP env o eofT heof ts hwf
+
+/-- **The file elaborates exactly as its hand-selected plain file** (`selTops env ts = some ms`: every poryswitch
+replaced by its selected case, `step * N` written out, `format()` values formatted): the same statements, the same
+parser state, the same located error of an old statement — from EVERY parser state. -/
+theorem elab_selected (env : Env) (ts : List STopP) (ms : List STopM) (h : selTops env ts = some ms) (s : PState) :
+    elabTopsP env ts s = elabTopsM env ms s :=
+  elabTopsP_sel env ts ms h s
+
+/-- **C12 for lists and text statements, whole files**: the file compiles to what its hand-selected plain file
+compiles to — the same `Sections`, or the same error. -/
+theorem file_selected (env : Env) (o : Opts) (eofT : Tok) (ts : List STopP) (ms : List STopM)
+    (h : selTops env ts = some ms) : compileFileP env o eofT ts = compileFileM env o eofT ms :=
+  compileFileP_sel env o eofT ts ms h
+
+/-- … through the model's pipeline on the printed tokens of both files (the hand-selected file of a well-formed
+file is a well-formed file of the grammar of P2b: `selTops_twf`). -/
+theorem file_selected_tokens (env : Env) (o : Opts) (eofT : Tok) (heof : eofT.type = .EOF) (ts : List STopP)
+    (ms : List STopM) (h : selTops env ts = some ms) (hwf : TWFP ts) :
+    TWFM ms ∧ compileToks env o (printTopsP ts ++ [eofT]) = compileToks env o (printTopsM ms ++ [eofT]) :=
+  ⟨selTops_twf env ts ms h hwf, compileToks_sel env o eofT heof ts ms h hwf⟩
+
+/-- With environment errors on (the compiler), a file that elaborates has a hand-selected plain file; a file
+without one has a located poryswitch / multiplier / font error in every parser state. -/
+theorem selected_defined (env : Env) (henv : env.envErrors = true) (ts : List STopP) (s : PState)
+    (r : List Top × PState) (h : elabTopsP env ts s = .ok r) : ∃ ms, selTops env ts = some ms :=
+  selTops_defined env henv ts s r h
+
+/-- **C17, independence, completed grammar** (environment errors on). `IndepP env eofT ts1 ts2` (decidable) is
+`P2b.IndepM` of the hand-selected files of the two parts: the new forms hoist nothing, consume no ids and read no
+constants except in the selected mart items, so the side condition is the one of P2b — (a) no token of (the
+hand-selected) `ts2` is spelled like a constant defined in `ts1`; (b) no shared hoisted text / movement, no shared
+hoisting name; (c) text names disjoint, movement names disjoint; (d) no label statement of one part is a text name
+of the other. In particular only the SELECTED cases of `ts2` matter. -/
+theorem tops_independent_ps (env : Env) (henv : env.envErrors = true) (o : Opts) (eofT : Tok)
+    (ts1 ts2 : List STopP) (h : IndepP env eofT ts1 ts2) (S : Sections) :
+    compileFileP env o eofT (ts1 ++ ts2) = .ok S ↔
+      ∃ S1 S2, compileFileP env o eofT ts1 = .ok S1 ∧ compileFileP env o eofT ts2 = .ok S2 ∧
+        S = S1.append S2 :=
+  indep_mainP env henv o eofT ts1 ts2 h S
+
+/-- … through the model's pipeline on tokens. -/
+theorem tops_independent_ps_tokens (env : Env) (henv : env.envErrors = true) (o : Opts) (eofT : Tok)
+    (heof : eofT.type = .EOF) (ts1 ts2 : List STopP) (hwf1 : TWFP ts1) (hwf2 : TWFP ts2)
+    (hwf : TWFP (ts1 ++ ts2)) (h : IndepP env eofT ts1 ts2) (L : List Line) :
+    compileToks env o (printTopsP (ts1 ++ ts2) ++ [eofT]) = .ok L ↔
+      ∃ S1 S2, compileToks env o (printTopsP ts1 ++ [eofT]) = .ok S1.lines ∧
+        compileToks env o (printTopsP ts2 ++ [eofT]) = .ok S2.lines ∧
+        compileFileP env o eofT ts1 = .ok S1 ∧ compileFileP env o eofT ts2 = .ok S2 ∧
+        L = (S1.append S2).lines := by
+  rw [compile_print_ps env o eofT heof _ hwf, compile_print_ps env o eofT heof _ hwf1,
+    compile_print_ps env o eofT heof _ hwf2]
+  constructor
+  · intro hL
+    cases hc : compileFileP env o eofT (ts1 ++ ts2) with
+    | error e => rw [hc] at hL; cases hL
+    | ok S =>
+      rw [hc] at hL
+      simp only [Except.ok.injEq] at hL
+      obtain ⟨S1, S2, h1, h2, rfl⟩ := (tops_independent_ps env henv o eofT ts1 ts2 h S).1 hc
+      exact ⟨S1, S2, by rw [h1], by rw [h2], h1, h2, hL.symm⟩
+  · rintro ⟨S1, S2, _, _, h1, h2, rfl⟩
+    rw [(tops_independent_ps env henv o eofT ts1 ts2 h _).2 ⟨S1, S2, h1, h2, rfl⟩]
+
+/-- A parse error of the first part is the parse error of the file (no side condition). -/
+theorem parse_error_left_ps (env : Env) (s0 : PState) (ts1 ts2 : List STopP) (e : PFail)
+    (h : elabTopsP env ts1 s0 = .error e) : elabTopsP env (ts1 ++ ts2) s0 = .error e :=
+  parse_error_leftP env s0 ts1 ts2 e h
+
+/-- A parse error of the second part (compiled alone) is the parse error of the file. -/
+theorem parse_error_right_ps (env : Env) (eofT : Tok) (ts1 ts2 : List STopP) (a b : List STopM)
+    (ha : selTops env ts1 = some a) (hb : selTops env ts2 = some b) (h : IndepM env eofT a b)
+    (tops1 : List Top) (s1 : PState) (h1 : elabTopsP env ts1 (initState eofT) = .ok (tops1, s1)) (e : PFail)
+    (h2 : elabTopsP env ts2 (initState eofT) = .error e) :
+    elabTopsP env (ts1 ++ ts2) (initState eofT) = .error e :=
+  parse_error_rightP env eofT ts1 ts2 a b ha hb h tops1 s1 h1 e h2
+
+/-- **C17, one statement, completed grammar** (`UnrelatedP` = `P2b.UnrelatedM` of the hand-selected files; `t`
+any statement but a `const` — e.g. a movement with poryswitch elements between scripts). -/
+theorem statement_independent_ps (env : Env) (henv : env.envErrors = true) (o : Opts) (eofT : Tok)
+    (pre : List STopP) (t : STopP) (post : List STopP) (h : UnrelatedP env eofT pre t post) (S' : Sections)
+    (hc : compileFileP env o eofT (pre ++ t :: post) = .ok S') :
+    ∃ P T Q : Sections, S' = P.append (T.append Q) ∧ T.tops.length ≤ 1 ∧
+      compileFileP env o eofT (pre ++ post) = .ok (P.append Q) :=
+  remove_statementP env henv o eofT pre t post h S' hc
+
+/-! ## 5. examples, non-vacuity -/
 section Example
 
 private def lp : Tok := tk .LPAREN "("
@@ -265,8 +520,7 @@ movement M {
   step_x
 }
 ``` (a poryswitch NESTED in a case of a poryswitch) -/
-def exMove : STopP :=
-  .movementP (tk .MOVEMENT "movement") .absent (id "M") lb
+def exMoveItems : Items :=
     (.cons (step "walk_up")
     (.cons (.sw psw lp (id "GAME") rp lb
         (.colon (id "RUBY") col (step "walk_left")
@@ -279,7 +533,9 @@ def exMove : STopP :=
                 rb .nil)) rb)
           .nil)) rb
         (.colon (id "_") col (step "walk_right") .nil))) rb)
-    (.cons (step "step_x") .nil))) rb
+    (.cons (step "step_x") .nil)))
+
+def exMove : STopP := .movementP (tk .MOVEMENT "movement") .absent (id "M") lb exMoveItems rb
 
 /-- `mart Shop { ITEM_A  poryswitch(GAME) { RUBY { ITEM_R ITEM_S }  _: ITEM_X }  ITEM_B }` -/
 def exMart : STopP :=
@@ -290,24 +546,25 @@ def exMart : STopP :=
         (.colon (id "_") col (step "ITEM_X") .nil)) rb)
     (.cons (step "ITEM_B") .nil))) rb
 
-/-- `format("aa bb", "TEST", 100)` -/
+/-- `format("a b", "TEST", 100)` -/
 def exFmt (lit len : String) : TVal :=
   .format (tk .FORMAT "format") lp none (tk .STRING lit)
     ⟨.fontLen (tk .COMMA ",") (tk .STRING "TEST") (tk .COMMA ",") (tk .INT len), tk .COMMA ",", []⟩ rp
 
-/-- `text T { poryswitch(GAME) { RUBY: "Ruby"  EMERALD { braille "A" }  _: format("aa bb", "TEST", 100)
+/-- `text T { poryswitch(GAME) { RUBY: "Ruby"  EMERALD { braille "A" }  _: format("a b", "TEST", 100)
 EMERALD: ascii "E" } }` (two `EMERALD` cases: the later one wins) -/
-def exTextSw : STopP :=
-  .textP (tk .TEXT "text") .absent (id "T") lb
+def exTextBody : TBody :=
     (.sw psw lp (id "GAME") rp lb
       [.colon (id "RUBY") col (.plain (tk .STRING "Ruby")),
        .brace (id "EMERALD") lb (.typed (tk .STRINGTYPE "braille") (tk .STRING "A")) rb,
-       .colon (id "_") col (exFmt "aa bb" "100"),
-       .colon (id "EMERALD") col (.typed (tk .STRINGTYPE "ascii") (tk .STRING "E"))] rb) rb
+       .colon (id "_") col (exFmt "a b" "100"),
+       .colon (id "EMERALD") col (.typed (tk .STRINGTYPE "ascii") (tk .STRING "E"))] rb)
 
-/-- `text F { format("aa bb cc", "TEST", 50) }` -/
+def exTextSw : STopP := .textP (tk .TEXT "text") .absent (id "T") lb exTextBody rb
+
+/-- `text F { format("a b c", "TEST", 30) }` -/
 def exTextFmt : STopP :=
-  .textP (tk .TEXT "text") (.written lp (tk .LOCAL "local") rp) (id "F") lb (.val (exFmt "aa bb cc" "50")) rb
+  .textP (tk .TEXT "text") (.written lp (tk .LOCAL "local") rp) (id "F") lb (.val (exFmt "a b c" "30")) rb
 
 /-- `raw` in front (an old statement, through the embedding) -/
 def exRaw : STopP := .base (.base (.raw (tk .RAW "raw") (tk .RAWSTRING "nop")))
@@ -319,8 +576,8 @@ def exFile : List STopP := [exRaw, exMove, exMart, exTextSw, exTextFmt]
 #guard (Lexer.lexAll ("raw `nop` movement M { walk_up poryswitch(GAME) { RUBY: walk_left EMERALD { walk_down * 2 " ++
     "poryswitch(LANG) { EN: face_up _ { face_down , face_left } } } _: walk_right } step_x } " ++
     "mart Shop { ITEM_A poryswitch(GAME) { RUBY { ITEM_R ITEM_S } _: ITEM_X } ITEM_B } " ++
-    "text T { poryswitch(GAME) { RUBY: \"Ruby\" EMERALD { braille\"A\" } _: format(\"aa bb\", \"TEST\", 100) " ++
-    "EMERALD: ascii\"E\" } } text (local) F { format(\"aa bb cc\", \"TEST\", 50) }").toList).map
+    "text T { poryswitch(GAME) { RUBY: \"Ruby\" EMERALD { braille\"A\" } _: format(\"a b\", \"TEST\", 100) " ++
+    "EMERALD: ascii\"E\" } } text (local) F { format(\"a b c\", \"TEST\", 30) }").toList).map
       (fun t => (t.type, t.lit)) ==
   (printTopsP exFile ++ [eofT]).map (fun t => (t.type, t.lit))
 
@@ -354,21 +611,36 @@ def view1 : PV :=
   { n := 5
     moves := [("M", ["walk_up", "walk_down", "walk_down", "face_up", "step_x"])]
     marts := [("Shop", ["ITEM_A", "ITEM_X", "ITEM_B"], ["ITEM_A", "ITEM_X", "ITEM_B"])]
-    texts := [("T", "E\\0", "ascii", true), ("F", "aa bb\\n\ncc$", "", false)] }
+    texts := [("T", "E\\0", "ascii", true), ("F", "a b\\n\nc$", "", false)] }
 
 /-- under `env2`: the `_` cases; the text is the `format()` of the `_` case. -/
 def view2 : PV :=
   { n := 5
     moves := [("M", ["walk_up", "walk_right", "step_x"])]
     marts := [("Shop", ["ITEM_A", "ITEM_X", "ITEM_B"], ["ITEM_A", "ITEM_X", "ITEM_B"])]
-    texts := [("T", "aa bb$", "", true), ("F", "aa bb\\n\ncc$", "", false)] }
+    texts := [("T", "a b$", "", true), ("F", "a b\\n\nc$", "", false)] }
 
-/-- **Non-vacuity, by evaluation of the parser model** (`decide` on `parseTokens`), two `-s` settings. -/
-theorem exFile_parsed_decide_1 :
-    (parseTokens env1 (printTopsP exFile ++ [eofT])).toOption.map progView = some view1 := by decide
+/-- the first four statements (the movement, the mart, the text with a poryswitch whose `_` case is a `format()`) -/
+def exFileA : List STopP := [exRaw, exMove, exMart, exTextSw]
 
-theorem exFile_parsed_decide_2 :
-    (parseTokens env2 (printTopsP exFile ++ [eofT])).toOption.map progView = some view2 := by decide
+theorem exFile_split : exFile = exFileA ++ [exTextFmt] := rfl
+
+/-- **Non-vacuity, by evaluation of the parser model** (`decide` on `parseTokens`), two `-s` settings: the file
+of the first four statements (under `env2` the selected text IS the `format()` of the `_` case) … -/
+theorem exFileA_parsed_decide_1 :
+    (parseTokens env1 (printTopsP exFileA ++ [eofT])).toOption.map progView =
+      some { view1 with n := 4, texts := [("T", "E\\0", "ascii", true)] } := by decide
+
+theorem exFileA_parsed_decide_2 :
+    (parseTokens env2 (printTopsP exFileA ++ [eofT])).toOption.map progView =
+      some { view2 with n := 4, texts := [("T", "a b$", "", true)] } := by decide
+
+/-- … and the `format()` text statement (evaluating the model on all five statements at once by `decide` exceeds
+the heartbeat limit: the elaborator's evaluation of `Fmt.formatText` through the parser monad grows quickly with
+the number of tokens in front; the five-statement file is evaluated through the theorem below). -/
+theorem exTextFmt_parsed_decide :
+    (parseTokens env1 (printTopsP [exTextFmt] ++ [eofT])).toOption.map progView =
+      some { n := 1, moves := [], marts := [], texts := [("F", "a b\\n\nc$", "", false)] } := by decide
 
 /-- **Non-vacuity, by the theorem**: the same through `parse_file_elab_ps` (the reference elaboration evaluated). -/
 theorem exFile_parsed_theorem_1 :
@@ -397,6 +669,24 @@ example :
                    .LOCAL),
            st { initState eofT with constants := [("ITEM_X", "7")] } [rb, eofT]) := by
   rw [parse_top_elab_ps env1 100 exMart _ eofT [] (by decide) (fun h => by cases h) (by decide)]
+  rfl
+
+/-- `parse_list_elab_ps` instantiated on a `moves( … )`-style list (closing `)`): the elements of `exMove`
+followed by `)`, in any state, with any accumulator (under `env3` the nested poryswitch falls back to `_`). -/
+example (s : PState) (acc rest : List Tok) :
+    (parseListValue env3 (.movement .RPAREN) true 100 acc).run (st s (exMoveItems.toks ++ rp :: rest)) =
+      .ok (acc ++ [id "walk_up", id "walk_down", id "walk_down", id "face_down", id "face_left", id "step_x"],
+           st s (rp :: rest)) := by
+  rw [parse_list_elab_ps env3 (.movement .RPAREN) good_movement_rparen s _ rp rest (by decide) rfl acc 100 (by decide)]
+  rfl
+
+/-- `parse_text_body_ps` instantiated: the body of `exTextSw` under `env2` (the `format()` of the `_` case). -/
+example (s : PState) (rest : List Tok) :
+    (parsePoryswitchTextStatement env2 100).run (st s (exTextBody.toks ++ rb :: rest)) =
+      .ok (("a b$", ""), st s (rb :: rb :: rest)) := by
+  have := parse_text_body_ps env2 100 s exTextBody (rb :: rest) (by decide) (by decide)
+  rw [if_pos (by rfl)] at this
+  rw [this]
   rfl
 
 /-! ### the located errors, through `parseTokens` -/
@@ -453,6 +743,106 @@ example :
   rw [parse_file_elab_ps _ eofT rfl _ (by decide)]
   exact congrArg (fun m => Except.error (newParseError (tk .INT "10000") m)) (by decide)
 
+/-! ### compiled output, hand-selected file, independence -/
+
+/-- emitter options of the examples: chunk order not optimised (`optimizeChunkOrder` does not reduce under
+`decide`), no line markers -/
+def exO : Opts := { optimize := false }
+
+theorem toOption_some {ε α : Type} {x : Except ε α} {a : α} (h : x.toOption = some a) : x = .ok a := by
+  cases x with
+  | error e => cases h
+  | ok b => cases h; rfl
+
+def linesR : List Line := [.raw "nop"]
+def linesM1 : List Line :=
+  [.labelDef "M" false, .step "walk_up", .step "walk_down", .step "walk_down", .step "face_up", .step "step_x",
+   .step "step_end"]
+def linesM2 : List Line := [.labelDef "M" false, .step "walk_up", .step "walk_right", .step "step_x", .step "step_end"]
+def linesS : List Line :=
+  [.align2, .labelDef "Shop" false, .twoByte "ITEM_A", .twoByte "ITEM_X", .twoByte "ITEM_B", .twoByte "ITEM_NONE"]
+def linesT1 : List Line := [.labelDef "T" true, .textLine "ascii" "E\\0"]
+def linesT2 : List Line := [.labelDef "T" true, .textLine "string" "a b$"]
+
+/-- the four-statement file compiled under the two `-s` settings -/
+theorem exFileA_compiled_1 :
+    compileFileP env1 exO eofT exFileA = .ok { tops := [linesR, linesM1, linesS], stm := [linesT1] } :=
+  toOption_some (by decide)
+
+theorem exFileA_compiled_2 :
+    compileFileP env2 exO eofT exFileA = .ok { tops := [linesR, linesM2, linesS], stm := [linesT2] } :=
+  toOption_some (by decide)
+
+/-- the rendered lines through the model's pipeline on the printed tokens -/
+example :
+    compileToks env1 exO (printTopsP exFileA ++ [eofT]) =
+      .ok (linesR ++ .blank :: linesM1 ++ .blank :: linesS ++ .blank :: linesT1) := by
+  rw [compile_print_ps env1 exO eofT rfl exFileA (by decide), exFileA_compiled_1]
+  rfl
+
+/-- the hand-selected plain file under `env1`, as source text:
+`raw \`nop\` movement M { walk_up walk_down walk_down face_up step_x } mart Shop { ITEM_A ITEM_X ITEM_B }
+text T { ascii"E\0" }` -/
+theorem exFileA_selected_1 :
+    (selTops env1 exFileA).map (fun ms => (printTopsM ms).map (·.lit)) =
+      some ["raw", "nop", "movement", "M", "{", "walk_up", "walk_down", "walk_down", "face_up", "step_x", "}",
+            "mart", "Shop", "{", "ITEM_A", "ITEM_X", "ITEM_B", "}", "text", "T", "{", "ascii", "E\\0", "}"] := by
+  decide
+
+/-- `file_selected` instantiated: the file and its hand-selected file compile to the same sections. -/
+example : ∃ ms, selTops env1 exFileA = some ms ∧ TWFM ms ∧
+    compileFileM env1 exO eofT ms = .ok { tops := [linesR, linesM1, linesS], stm := [linesT1] } := by
+  obtain ⟨ms, hms⟩ := selected_defined env1 rfl exFileA (initState eofT) _ rfl
+  refine ⟨ms, hms, (file_selected_tokens env1 exO eofT rfl exFileA ms hms (by decide)).1, ?_⟩
+  rw [← file_selected env1 exO eofT exFileA ms hms, exFileA_compiled_1]
+
+/-- The side condition of `tops_independent_ps` holds for the split `[raw, movement] ++ [mart, text]` … -/
+theorem exFileA_indep : IndepP env1 eofT [exRaw, exMove] [exMart, exTextSw] := by decide
+
+/-- … so the theorem gives the compiled file from the compiled parts. -/
+example :
+    compileFileP env1 exO eofT ([exRaw, exMove] ++ [exMart, exTextSw]) =
+      .ok (Sections.append { tops := [linesR, linesM1] } { tops := [linesS], stm := [linesT1] }) := by
+  have h1 : compileFileP env1 exO eofT [exRaw, exMove] = .ok { tops := [linesR, linesM1] } :=
+    toOption_some (by decide)
+  have h2 : compileFileP env1 exO eofT [exMart, exTextSw] = .ok { tops := [linesS], stm := [linesT1] } :=
+    toOption_some (by decide)
+  exact (tops_independent_ps env1 rfl exO eofT _ _ exFileA_indep _).2 ⟨_, _, h1, h2, rfl⟩
+
+/-- The side condition of `statement_independent_ps` holds for the movement statement between `raw` and the
+rest: removing it removes exactly its block. -/
+theorem exMove_unrelated : UnrelatedP env1 eofT [exRaw] exMove [exMart, exTextSw] := by decide
+
+example :
+    ∃ P T Q : Sections, ({ tops := [linesR, linesM1, linesS], stm := [linesT1] } : Sections) = P.append (T.append Q) ∧
+      T.tops.length ≤ 1 ∧ compileFileP env1 exO eofT ([exRaw] ++ [exMart, exTextSw]) = .ok (P.append Q) :=
+  statement_independent_ps env1 rfl exO eofT [exRaw] exMove [exMart, exTextSw] exMove_unrelated _ exFileA_compiled_1
+
+/-- A constant of part 1 spelled like an item of an UNSELECTED case of part 2 does not matter, one spelled like
+the SELECTED item does: `const ITEM_R = 1` / `const ITEM_X = 1` in front of the mart (selected under `env1`:
+`ITEM_A ITEM_X ITEM_B`). -/
+def exConst (n : String) : STopP := .base (.base (.const (tk .CONST "const") (id n) (tk .ASSIGN "=") [tk .INT "1"]))
+
+example : IndepP env1 eofT [exConst "ITEM_R", exRaw] [exMart] ∧ ¬ IndepP env1 eofT [exConst "ITEM_X", exRaw] [exMart] := by
+  decide
+
+/-- **Why `selTop` is partial in the lint parser**: the text of `exNoCase` is `("", "")` there — no terminator —,
+and no plain text statement has that value (`selTop = none` although the statement elaborates). -/
+theorem lint_hole :
+    selTop { env1 with envErrors := false } exNoCase = none ∧
+    (stepTopP { env1 with envErrors := false } exNoCase (initState eofT)).toOption.map
+      (fun r => r.2.textStatements.map (fun t => (t.name, t.value))) = some [("T", "")] ∧
+    ∀ v : TextVal, v.value ≠ ("", "") := by
+  refine ⟨by decide, by decide, ?_⟩
+  intro v h
+  have h1 : formatTextTerminator v.str.lit v.strType = "" := congrArg Prod.fst h
+  have h2 : v.strType = "" := congrArg Prod.snd h
+  rw [h2] at h1
+  have h3 := (C09.terminator_once v.str.lit "" "$" (by decide)).1
+  rw [h1] at h3
+  exact absurd h3 (by decide)
+
+
 end Example
 
 #print axioms parse_list_elab_ps
@@ -465,7 +855,14 @@ end Example
 #print axioms parse_program_elab_ps
 #print axioms parse_file_elab_ps
 #print axioms parse_file_embed_ps
-#print axioms exFile_parsed_decide_1
+#print axioms file_selected
+#print axioms file_selected_tokens
+#print axioms tops_independent_ps
+#print axioms tops_independent_ps_tokens
+#print axioms parse_error_right_ps
+#print axioms statement_independent_ps
+#print axioms lint_hole
+#print axioms exFileA_parsed_decide_1
 #print axioms exFile_parsed_theorem_2
 
 end Pory.P2d
